@@ -38,6 +38,7 @@ def run(prog, chk):
     candidate_table(prog, chk)
     from props import geomalg
     geomalg.check_sites(prog, chk, "C13")
+    geomalg.check_float_truncation(prog, chk)  # no float is cut down to an integer on the way (a truncated distance / coordinate makes different candidates tie)
     geomalg.check(prog, chk, "C13", floor=30)
 
 
